@@ -72,7 +72,7 @@ def c_history(e1: int, e2: int, e3: int, e4: int, a1: bool, a2: bool, a3: bool, 
             devs.append('C09:%s:PAYLOAD-or-ERROR-emitted-after-peer-CANCEL' % role)
     if o.by_ok is False:
         devs.append('bystander-request-disturbed-by-cancellation')
-    if o.loop.exc:
+    if o.loop.errors():
         devs.append('loop-exception-handler-called')
     stats.note(o.app_cancelled or o.inbound_cancel > 0, describe(o))
     return pick_dev(devs, ALLOWED)
@@ -148,6 +148,8 @@ def c_cancel_library_sources(when: int, n0: int, extra: bool) -> str:
             devs.append('C09:PAYLOAD-emitted-after-CANCEL:' + SRC)
         if len(pulled) != pulled_at_cancel:
             devs.append('source-pulled-after-CANCEL')
+        if when == 0 and (emitted != 0 or pulled_at_cancel != 0):
+            devs.append('C09:element-produced-although-CANCEL-arrived-with-the-request:' + SRC)
         if when >= 1 and when <= M and emitted != when:
             devs.append('harness-expectation:elements-before-cancel')
         if 1 in s._stream_control._streams:
